@@ -59,9 +59,18 @@ def masses_of(name, eng):
     return np.array(eng.mass, dtype=float).reshape(-1)
 
 
-def one(name, T, z, zero_momentum, wd):
+def one(name, T, z, zero_momentum, wd, hetero=False):
     from infretis.classes.system import System
 
+    if hetero:
+        sub = os.path.join(wd, "inp")
+        if os.path.isdir(sub):
+            import shutil
+
+            shutil.rmtree(sub)
+        os.makedirs(sub)
+        eng, conf, het_m = engines.hetero(name, sub, temperature=T)
+        return _one(name, T, z, zero_momentum, wd, eng, conf, het_m)
     kw = {}
     if name in ("lammps", "gromacs", "cp2k"):
         kw = dict(temperature=T)
@@ -70,11 +79,18 @@ def one(name, T, z, zero_momentum, wd):
     if name == "cp2k" and T != 300:
         return None  # the CP2K template fixes the temperature (checked by the engine itself)
     eng, conf = engines.BUILDERS[name](**kw)
+    return _one(name, T, z, zero_momentum, wd, eng, conf, None)
+
+
+def _one(name, T, z, zero_momentum, wd, eng, conf, het_m):
+    from infretis.classes.system import System
+
     if name == "turtlemd":
         eng.temperature = T
         eng._beta = 1 / (eng.boltzmann * T)
     for f in os.listdir(wd):
-        os.remove(os.path.join(wd, f))
+        if os.path.isfile(os.path.join(wd, f)):
+            os.remove(os.path.join(wd, f))
     eng.exe_dir = wd
     rg = sr.make()
     eng.rgen = rg
@@ -120,7 +136,7 @@ def one(name, T, z, zero_momentum, wd):
         bad.append(("stream-use", f"expected one vectorised Gaussian draw from the job stream, saw {len(calls)}"))
         return bad
     mu, vu, eu = UNITS[name]
-    m = masses_of(name, eng)
+    m = masses_of(name, eng) if het_m is None else (np.array(eng.mass, dtype=float).reshape(-1) if name == "cp2k" else het_m)
     zz = np.array(z, dtype=float).reshape(len(m), 3)
     if calls[0][0] == "normal":
         if calls[0][1] != 0.0:
@@ -139,7 +155,8 @@ def one(name, T, z, zero_momentum, wd):
     else:
         ptot = np.sum((m[:, None]) * v1, axis=0)
         ref = float(np.max(np.abs(m[:, None] * v1))) or 1.0
-        if np.max(np.abs(ptot)) > 1e-5 * ref:
+        # the file carries velocities to a finite number of decimals (9 for the text formats)
+        if np.max(np.abs(ptot)) > 1e-5 * ref + float(np.sum(m)) * 6e-10:
             bad.append(("momentum-not-zero", f"total momentum {ptot} (largest single momentum {ref})"))
         sig = np.sqrt(KB * T / (m * mu)) / vu
         raw = zz * sig[:, None]
@@ -161,13 +178,13 @@ def one(name, T, z, zero_momentum, wd):
 
 
 def _job(args):
-    name, T, zm, zs = args
+    name, T, zm, zs, het = args
     wd = scratch.mkdtemp("c16")
     out = []
     n = 0
     try:
         for z in zs:
-            r = one(name, T, z, zm, wd)
+            r = one(name, T, z, zm, wd, hetero=het)
             if r is None:
                 continue
             n += 1
@@ -177,18 +194,19 @@ def _job(args):
                 bad, dig = r
             # same stream => same file
             if dig is not None and z == zs[0]:
-                r2 = one(name, T, z, zm, wd)
+                r2 = one(name, T, z, zm, wd, hetero=het)
                 n += 1
                 if not isinstance(r2, list) and r2[1] != dig:
                     bad.append(("not-reproducible", "same stream, different genvel file"))
             for clause, msg in bad:
-                out.append((f"{name}:{clause}", f"T={T} zero_momentum={zm} z={list(z)}: {msg}", dict(name=name, T=T, zm=zm, z=list(z))))
+                out.append((f"{name}:{clause}", f"T={T} zero_momentum={zm} masses={'O,H' if het else 'H,H'} z={list(z)}: {msg}",
+                            dict(name=name, T=T, zm=zm, z=list(z), het=het)))
     finally:
         scratch.rmtree(wd)
     seen = {}
     for sig, msg, rp in out:
         seen.setdefault(sig, (msg, rp))
-    return (name, T, zm), n, seen
+    return (name, T, zm, het), n, seen
 
 
 def source_untouched(ctx):
@@ -241,7 +259,9 @@ def run(ctx):
     for name in ("turtlemd", "lammps", "cp2k", "gromacs", "ase"):
         for T in (1.0, 300.0):
             for zm in (False, True):
-                jobs.append((name, T, zm, zs))
+                jobs.append((name, T, zm, zs, False))
+                if T == 300.0:
+                    jobs.append((name, T, zm, zs[:: 3 if ctx.quick else 1], True))
     with mp.get_context("fork").Pool(min(16, os.cpu_count() or 1)) as pool:
         res = pool.map(_job, jobs, chunksize=1)
     n = 0
@@ -252,7 +272,7 @@ def run(ctx):
             ctx.violation(sig, msg, dict(kind="z", **rp))
     n += source_untouched(ctx)
     ctx.set("evaluations", n)
-    ctx.set("rule", "engines x temperatures {1, 300} x zero_momentum x z-arrays over an alphabet for 2 atoms x 3 components; distinct = (engine, T, zero_momentum, #cases)")
+    ctx.set("rule", "engines x temperatures {1, 300} x zero_momentum x masses {H,H ; O,H} x z-arrays over an alphabet for 2 atoms x 3 components; distinct = (engine, T, zero_momentum, #cases)")
     ctx.sample(dict(engine="lammps", T=300.0, z=[-1.0, 0.0, 2.0, 2.0, -1.0, 0.0], expect="m v^2 = z^2 k_B T per component (SI, CODATA constants)"))
     if ctx.quick:
         ctx.exhaustive = False
@@ -277,7 +297,7 @@ def replay(data):
         return [v for v in c.v if v[0].startswith(data["name"])]
     wd = scratch.mkdtemp("c16r")
     try:
-        r = one(data["name"], data["T"], tuple(data["z"]), data["zm"], wd)
+        r = one(data["name"], data["T"], tuple(data["z"]), data["zm"], wd, hetero=data.get("het", False))
         bad = r if isinstance(r, list) else r[0]
         return [(f"{data['name']}:{c}", m) for c, m in bad]
     finally:
